@@ -1,7 +1,7 @@
 (* Entry.v — single extracted entry point [run]: request = VList [VStr name; arg].
    All marshalling is done here in Gallina so that ocaml/driver.ml stays generic. *)
 From Coq Require Import ZArith List Bool String Ascii.
-From Verif Require Import PyStr Normalize NormalizeGen Util UtilGen Toc TocGen Footnote FootnoteGen Cli CliGen StoreGen Rx UnicodeGen RxGen Scanner RefLinks Tmpl HtmlRender TmplGen CodeSpan RxSub RxCost Inline InlineGen.
+From Verif Require Import PyStr Normalize NormalizeGen Util UtilGen Toc TocGen Footnote FootnoteGen Cli CliGen StoreGen Rx UnicodeGen RxGen Scanner RefLinks Tmpl HtmlRender TmplGen CodeSpan RxSub RxCost Inline InlineGen Block BlockGen Doc.
 Import ListNotations.
 Open Scope Z_scope.
 
@@ -106,6 +106,99 @@ Fixpoint enc_tok (t : tok) : pval :=
     VList [VStr (z_of_string (if img then "image" else "link")); VList (map enc_tok ch); VStr url;
            match title with Some t => VStr t | None => VNone end; VBool tk;
            match ref with Some (k, l) => VList [VStr k; VStr l] | None => VNone end]
+  end.
+
+(* ---- block parser instance ---- *)
+Definition brule_of_name (n : str) : option brule :=
+  if is_name n "fenced_code" then Some RFenced else if is_name n "indent_code" then Some RIndent
+  else if is_name n "atx_heading" then Some RAtx else if is_name n "setex_heading" then Some RSetex
+  else if is_name n "thematic_break" then Some RThematic else if is_name n "block_quote" then Some RQuote
+  else if is_name n "list" then Some RList else if is_name n "ref_link" then Some RRefLink
+  else if is_name n "raw_html" then Some RRawHtml else if is_name n "blank_line" then Some RBlankLine
+  else if is_name n "block_html" then Some RBlockHtml else None.
+
+Definition block_spec (r : brule) : rx :=
+  match r with
+  | RFenced => rx_block__fenced_code | RIndent => rx_block__indent_code | RAtx => rx_block__atx_heading
+  | RSetex => rx_block__setex_heading | RThematic => rx_block__thematic_break | RQuote => rx_block__block_quote
+  | RList => rx_block__list | RRefLink => rx_block__ref_link | RRawHtml => rx_block__raw_html
+  | RBlankLine => rx_block__blank_line | RBlockHtml => rx_block__block_html | RListItem => RFail
+  end.
+
+Definition lb_named (l : list (str * rx)) : list (brule * rx) :=
+  flat_map (fun e : str * rx => match brule_of_name (fst e) with Some r => [(r, snd e)] | None => [] end) l.
+
+Definition lb_rules_of (w : nat) : list (brule * rx) :=
+  lb_named (match w with 0 => lb_rules_0 | 1 => lb_rules_1 | 2 => lb_rules_2 | _ => lb_rules_3 end)%nat.
+
+Definition item_rx_of (bullet : Z) (w : nat) : rx :=
+  if (bullet =? 46)%Z then (match w with 0 => item_rx_46_0 | 1 => item_rx_46_1 | 2 => item_rx_46_2 | _ => item_rx_46_3 end)%nat
+  else if (bullet =? 41)%Z then (match w with 0 => item_rx_41_0 | 1 => item_rx_41_1 | 2 => item_rx_41_2 | _ => item_rx_41_3 end)%nat
+  else if (bullet =? 42)%Z then (match w with 0 => item_rx_42_0 | 1 => item_rx_42_1 | 2 => item_rx_42_2 | _ => item_rx_42_3 end)%nat
+  else if (bullet =? 43)%Z then (match w with 0 => item_rx_43_0 | 1 => item_rx_43_1 | 2 => item_rx_43_2 | _ => item_rx_43_3 end)%nat
+  else (match w with 0 => item_rx_45_0 | 1 => item_rx_45_1 | 2 => item_rx_45_2 | _ => item_rx_45_3 end)%nat.
+
+Definition ascii_lower (c : Z) : Z := if (65 <=? c)%Z && (c <=? 90)%Z then (c + 32)%Z else c.
+
+Definition block_cfg : option bcfg :=
+  match opt_all (map brule_of_name block_rules) with
+  | None => None
+  | Some rules =>
+    Some {| b_uni := U; b_spec := block_spec; b_rules := rules; b_max_nested := block_max_nested;
+            b_blank_line := rx_block__BLANK_LINE; b_line_end := rx_core__LINE_END; b_strict_quote := rx_block_parser__STRICT_BLOCK_QUOTE;
+            b_quote_leading := rx_block_parser__BLOCK_QUOTE_LEADING; b_quote_trim := rx_block_parser__BLOCK_QUOTE_TRIM;
+            b_line_blank_end := rx_block_parser__LINE_BLANK_END; b_blank_to_line := rx_block_parser__BLANK_TO_LINE;
+            b_open_tag_end := rx_block_parser__OPEN_TAG_END; b_close_tag_end := rx_block_parser__CLOSE_TAG_END;
+            b_indent_code_trim := rx_block_parser__INDENT_CODE_TRIM; b_atx_trim := rx_block_parser__ATX_HEADING_TRIM;
+            b_line_has_text := rx_list_parser__LINE_HAS_TEXT; b_expand_tab := rx_util__expand_tab_re; b_strip_end := rx_util__strip_end_re;
+            b_escape_char := rx_helpers__ESCAPE_CHAR_RE; b_bracket_start := rx_helpers__LINK_BRACKET_START;
+            b_bracket := rx_helpers__LINK_BRACKET_RE; b_href_block := rx_helpers__LINK_HREF_BLOCK_RE; b_title := rx_helpers__LINK_TITLE_RE;
+            b_lb_rules := lb_rules_of; b_item_rx := item_rx_of; b_block_tags := block_tags; b_pre_tags := pre_tags;
+            b_is_ws := is_ws T; b_lower := ascii_lower; b_unikey := run_unikey T unikey_ops; b_escape_url := escape_url T escape_url_safe |}
+  end.
+
+Definition vopt_str (o : option str) : pval := match o with Some s => VStr s | None => VNone end.
+
+Fixpoint enc_btok (t : btok) : pval :=
+  match t with
+  | BBlank => VList [VStr (z_of_string "blank_line")]
+  | BThematic => VList [VStr (z_of_string "thematic_break")]
+  | BCode raw fenced marker info => VList [VStr (z_of_string "block_code"); VStr raw; VBool fenced; VStr marker; vopt_str info]
+  | BHeading text level setext => VList [VStr (z_of_string "heading"); VStr text; vnat level; VBool setext]
+  | BParagraph text => VList [VStr (z_of_string "paragraph"); VStr text]
+  | BBlockText text => VList [VStr (z_of_string "block_text"); VStr text]
+  | BQuote ch => VList [VStr (z_of_string "block_quote"); VList (map enc_btok ch)]
+  | BList items tight bullet depth ordered start =>
+    VList [VStr (z_of_string "list"); VList (map enc_btok items); VBool tight; VStr [bullet]; vnat depth; VBool ordered;
+           match start with Some z => VInt z | None => VNone end]
+  | BListItem ch => VList [VStr (z_of_string "list_item"); VList (map enc_btok ch)]
+  | BHtml raw => VList [VStr (z_of_string "block_html"); VStr raw]
+  end.
+
+Fixpoint enc_node (n : node) : pval :=
+  match n with
+  | NBlank => VList [VStr (z_of_string "blank_line")]
+  | NThematic => VList [VStr (z_of_string "thematic_break")]
+  | NCode raw fenced marker info => VList [VStr (z_of_string "block_code"); VStr raw; VBool fenced; VStr marker; vopt_str info]
+  | NHeading ch level setext => VList [VStr (z_of_string "heading"); VList (map enc_tok ch); vnat level; VBool setext]
+  | NParagraph ch => VList [VStr (z_of_string "paragraph"); VList (map enc_tok ch)]
+  | NBlockText ch => VList [VStr (z_of_string "block_text"); VList (map enc_tok ch)]
+  | NQuote ch => VList [VStr (z_of_string "block_quote"); VList (map enc_node ch)]
+  | NList items tight bullet depth ordered start =>
+    VList [VStr (z_of_string "list"); VList (map enc_node items); VBool tight; VStr [bullet]; vnat depth; VBool ordered;
+           match start with Some z => VInt z | None => VNone end]
+  | NListItem ch => VList [VStr (z_of_string "list_item"); VList (map enc_node ch)]
+  | NHtml raw => VList [VStr (z_of_string "block_html"); VStr raw]
+  end.
+
+(* the inline configuration is total once the rule names are known *)
+Definition inline_cfg_or (hw : bool) (refs : list (str * (str * option str))) (dflt : icfg) : icfg :=
+  match inline_cfg hw refs with Some c => c | None => dflt end.
+
+Definition core_doc_parse (hw : bool) (s : str) : res (list node) :=
+  match block_cfg, inline_cfg hw [] with
+  | Some CB, Some d => doc_parse CB (fun rf => inline_cfg_or hw rf d) (run_ops parse_norm_ops) s
+  | _, _ => Exn
   end.
 
 Definition run_named (name : str) (arg : pval) : pval :=
@@ -261,6 +354,30 @@ Definition run_named (name : str) (arg : pval) : pval :=
                   | Exn => VErr "exception"
                   | Fuel => VErr "fuel"
                   end
+      end
+    | _ => VErr "arg" end
+  else if is_name name "block" then
+    match arg with
+    | VStr s =>
+      match block_cfg with
+      | None => VErr "unknown block rule"
+      | Some C => match block_parse C s with
+                  | Ok (toks, rf) =>
+                    VList [VList (map enc_btok toks);
+                           VList (map (fun e : str * (str * str * option str) =>
+                                         VList [VStr (fst e); VStr (fst (fst (snd e))); VStr (snd (fst (snd e))); vopt_str (snd (snd e))]) rf)]
+                  | Exn => VErr "exception"
+                  | Fuel => VErr "fuel"
+                  end
+      end
+    | _ => VErr "arg" end
+  else if is_name name "doc" then
+    match arg with
+    | VList [VStr s; VBool hw] =>
+      match core_doc_parse hw s with
+      | Ok ns => VList (map enc_node ns)
+      | Exn => VErr "exception"
+      | Fuel => VErr "fuel"
       end
     | _ => VErr "arg" end
   else if is_name name "replace" then
